@@ -4,6 +4,7 @@ import (
 	"fmt"
 	"runtime"
 	"sync"
+	"sync/atomic"
 	"testing"
 
 	"github.com/opsidian/parsley/combinator"
@@ -157,6 +158,13 @@ func checkC14(ci interface{}, st *Stats) error {
 	if c.Procs > 0 {
 		defer runtime.GOMAXPROCS(runtime.GOMAXPROCS(c.Procs))
 	}
+	if c.Construct {
+		for round := 0; round < 6; round++ {
+			if err := parallelBuild(4+c.Pattern%5, 8); err != nil {
+				return err
+			}
+		}
+	}
 	// The concurrent phase runs first, on a cold process state for this case (anything the
 	// library caches process-wide is filled while other goroutines are parsing); the sequential
 	// baseline is computed afterwards with the same shared parser graph.
@@ -250,6 +258,54 @@ func checkC14(ci interface{}, st *Stats) error {
 // likely new to the process.
 func freshPattern(n int) string {
 	return fmt.Sprintf("[a-z]+(?:#x{%d}y{%d})?", n%1000+1, (n/1000)%1000+1)
+}
+
+// parallelBuild constructs the parts of ONE grammar in several goroutines at the same time
+// (each builds some Memoize'd token parsers behind a spin barrier), assembles them into
+// Sentence(Many(Choice(all parts))) and parses the concatenation of all tokens. Every token must be
+// recognised by its own part: parsers that were handed the same memoization key by a racy
+// constructor answer for each other.
+func parallelBuild(workers, perWorker int) error {
+	parts := make([][]parsley.Parser, workers)
+	toks := make([][]string, workers)
+	var ready, wg sync.WaitGroup
+	var gate int32
+	ready.Add(workers)
+	for w := 0; w < workers; w++ {
+		wg.Add(1)
+		go func(w int) {
+			defer wg.Done()
+			ready.Done()
+			for atomic.LoadInt32(&gate) == 0 {
+				runtime.Gosched()
+			}
+			for j := 0; j < perWorker; j++ {
+				tok := fmt.Sprintf("<%d.%d>", w, j)
+				toks[w] = append(toks[w], tok)
+				parts[w] = append(parts[w], combinator.Memoize(terminal.Op(tok)))
+			}
+		}(w)
+	}
+	ready.Wait()
+	atomic.StoreInt32(&gate, 1)
+	wg.Wait()
+	var all []parsley.Parser
+	var input, want string
+	for w := range parts {
+		all = append(all, parts[w]...)
+		for _, tk := range toks[w] {
+			input += tk
+			want += tk + ";"
+		}
+	}
+	p := combinator.Sentence(combinator.Many(combinator.Choice(all...)).Bind(concatInterpAny()))
+	f := text.NewFile("f", []byte(input))
+	ctx := parsley.NewContext(parsley.NewFileSet(f), text.NewReader(f))
+	v, err := parsley.Evaluate(ctx, p)
+	if err != nil || v != want {
+		return fmt.Errorf("a grammar whose %d memoized parts were constructed by %d goroutines at the same time does not recognise its own tokens: value %v, error %v (want %q)", workers*perWorker, workers, v, err, want)
+	}
+	return nil
 }
 
 func containsNilErr(s string) bool {
